@@ -1,5 +1,6 @@
 import Driver.C07
 import Qryn.LogQL.PlannerX
+import Qryn.LogQL.GrammarC07
 /-! line protocol for the extended LogQL log-query planner model (`LogQL.planLogX`) -/
 namespace Driver.C07X
 open Qryn Qryn.Sql Qryn.LogQL Driver.C07
@@ -41,5 +42,14 @@ def handle : List String → Option String
     | [ms, st] => do
       some (hexOut (renderSel (planScript c (← list? matcher? ms) (← list? scriptStage? st))))
     | _ => none
+  -- the classification of the grammar's productions (struct:field:class:what-the-model-makes-of-it, hex)
+  | ["c07gram"] =>
+    let hx (s : String) : String := hexOut s.toUTF8.toList
+    some (";".intercalate (GrammarC07.classTable.map (fun e => s!"{hx e.1.1}:{hx e.1.2.1}:{hx e.1.2.2}:{hx e.2}")))
+  -- the analysis of a pipeline: marks of `simpleOps` and `labelsJoinIdx`
+  | ["c07analyze", st] => do
+    let ss ← list? stageX? st
+    let marks := String.join ((simpleOps ss).map (fun b => if b then "1" else "0"))
+    some s!"{if marks = "" then "-" else marks} {match labelsJoinIdx ss with | some j => toString j | none => "-1"}"
   | _ => none
 end Driver.C07X
